@@ -3,6 +3,8 @@
 package connectconformance
 
 import (
+	"sync"
+
 	conformancev1 "connectrpc.com/conformance/internal/gen/proto/go/connectrpc/conformance/v1"
 )
 
@@ -16,3 +18,50 @@ func VerifC19ServerReceiveLimit() int64 { return serverReceiveLimit }
 
 // VerifC19ClientReceiveLimit is the limit handed to clients under test.
 func VerifC19ClientReceiveLimit() int64 { return clientReceiveLimit }
+
+// VerifC19Loaded is what the runner's own loading glue makes of a set of test files.
+type VerifC19Loaded struct {
+	ParseErr error
+	// the suites as parseTestSuites returns them (after the expand_requests processing)
+	Suites map[string]*conformancev1.TestSuite
+	LibErr error
+	// the library's permutations (testCases) keyed by full name, and their names in the file
+	Perms  map[string]*conformancev1.TestCase
+	Simple map[string]string
+	// number of entries reachable through casesByServer and allPermutations(false, false)
+	Grouped, All int
+}
+
+// VerifC19Load drives test files through the glue of Run/run: parseTestSuites on the bytes,
+// the default configuration (parseConfig without a file), newTestCaseLibrary for the mode.
+func VerifC19Load(files map[string][]byte, mode conformancev1.TestSuite_TestMode) VerifC19Loaded {
+	var out VerifC19Loaded
+	out.Suites, out.ParseErr = parseTestSuites(files)
+	if out.ParseErr != nil {
+		return out
+	}
+	// the default configuration (no config file), computed by the real parseConfig once
+	verifC19ConfigOnce.Do(func() { verifC19Config, verifC19ConfigErr = parseConfig("", nil) })
+	configCases, err := verifC19Config, verifC19ConfigErr
+	if err != nil {
+		out.LibErr = err
+		return out
+	}
+	lib, err := newTestCaseLibrary(out.Suites, configCases, mode)
+	if err != nil {
+		out.LibErr = err
+		return out
+	}
+	out.Perms, out.Simple = lib.testCases, lib.testCaseNames
+	for _, cases := range lib.casesByServer {
+		out.Grouped += len(cases)
+	}
+	out.All = len(lib.allPermutations(false, false))
+	return out
+}
+
+var (
+	verifC19ConfigOnce sync.Once
+	verifC19Config     []configCase
+	verifC19ConfigErr  error
+)
